@@ -1,4 +1,5 @@
 """C10 - property-statechart monitoring: complete, ordered, fail-fast, non-intrusive (DESIGN.md section 4, C10)."""
+import functools
 from fractions import Fraction as F
 
 from sim.chart import Cfg, swarm, gen_spec, tid
@@ -18,7 +19,7 @@ RUN_LIMIT_CPU_S = 600     # one run enumerates hundreds of fault positions in th
 BUDGET = {'quick': 25, 'thorough': 300}
 BLOCK = 8
 STREAM_ORDER = ['ops', 'guards', 'faults', 'chart', 'cfg']
-RULE = (common.GEN + 'the monitored chart sends events (with delays) and notifies, in a third of the runs it carries contracts that are checked; listeners read every documented attribute of every meta-event; in half of the runs the property statecharts arm a far-away timeout on themselves (a pending delayed internal event of their own); listeners: a plain recording callable (attach), a recording '
+RULE = (common.GEN + 'the monitored chart sends events (with delays) and notifies, in a third of the runs it carries contracts that are checked; listeners read every documented attribute of every meta-event; in a third of the runs the monitored interpreter is a subclass of Interpreter with its own constructor and a property statechart is bound with the default interpreter_klass; in half of the runs the property statecharts arm a far-away timeout on themselves (a pending delayed internal event of their own); listeners: a plain recording callable (attach), a recording '
         'property statechart (bind_property_statechart, built through interpreter_klass so that it shares a recorder) and a tripwire property '
         'statechart that becomes final at its k-th meta-event. Run A (no tripwire): the stream both recorders saw must equal the stream derived '
         'from the returned micro steps, the property chart own clock must equal the monitored step time, and the macro steps must equal those '
@@ -58,6 +59,27 @@ def _tripwire_chart(armed=False):
         sc.add_transition(Transition('s', None, event=n, action='n = n + 1'))
     sc.add_transition(Transition('s', 'f', guard='n >= K'))
     return sc
+
+
+def _idle_chart():
+    """a property statechart without any need: bound with the documented default (interpreter_klass omitted -> Interpreter)"""
+    sc = Statechart('never')
+    sc.add_state(CompoundState('r', initial='s'), None)
+    sc.add_state(BasicState('s'), 'r')
+    return sc
+
+
+IDLE = _idle_chart()
+
+
+class Monitored(Interpreter):
+    """the monitored interpreter may be a subclass with its own constructor: property statecharts are still run by
+    Interpreter unless interpreter_klass says otherwise"""
+    built = []
+
+    def __init__(self, statechart, *, tag, **kw):
+        super().__init__(statechart, **kw)
+        Monitored.built.append(tag)
 
 
 RECORDERS = {False: _recorder_chart(), True: _recorder_chart(True)}
@@ -181,7 +203,20 @@ def run(ch, tier):
     sp = gen_spec(ch.s('chart'), cfg)
     cfp = fp(sp.fingerprint())
     # ---------------- run A
-    a = Sim(sp, clock=mkclock(), ignore_contract=not contracts)
+    subclassed = cs.flag(1, 3)
+    del Monitored.built[:]
+    a = Sim(sp, clock=mkclock(), ignore_contract=not contracts,
+            interpreter_klass=functools.partial(Monitored, tag='monitored') if subclassed else Interpreter)
+    if subclassed:
+        try:
+            a.it.bind_property_statechart(IDLE)
+        except Exception as e:
+            return res.fail('intrusive', 'bind_property_statechart(statechart) on an interpreter of a subclass raised %s: %s' % (
+                type(e).__name__, str(e)[:100]), chart=sp.describe())
+        if Monitored.built != ['monitored']:
+            return res.fail('intrusive', 'binding a property statechart without interpreter_klass built %d more interpreter(s) of the '
+                            'monitored interpreter\'s own class (documented default: Interpreter)' % (len(Monitored.built) - 1), chart=sp.describe())
+        res.stats['runs_monitoring_an_interpreter_subclass'] += 1
     plain = Plain(a)
     q = Q()
     a.it.attach(plain)
